@@ -188,10 +188,86 @@ def random_cases(draw, stratum):
                            min_len=2, max_len=12, barriers=True,
                            avoid={'rename_model_m2m', 'index_cover', 'dbcol_dbindex',
                                   'dbindex_with_rebuild', 'readd_name'})
+    if stratum == 'name_reuse':
+        return draw(name_reuse_cases())
     case = draw(EC.cases(feats, opts=opts, mode='walk', max_rows=3))
     n = len(case['seq'])
     case['cuts'] = sorted(set(draw(st.lists(st.integers(1, max(1, n - 1)), max_size=2))))
     return case
+
+
+@st.composite
+def name_reuse_cases(draw):
+    """By construction: a field F of one model gets [ChangeField] RenameField(F->G)
+    AddField(new field named F) [ChangeField of the new F], with a few random
+    field-level mutations in between - two generations of one field name inside one
+    batch (no deletions: that is F-C03-13's trigger)."""
+    feats = S.Features(two_apps=False, meta=False, max_models=2, max_fields=3, relations=False,
+                       m2m=False, db_column=False)
+    opts = mutgen.WalkOpts(kinds=['AddField', 'ChangeField', 'RenameField'], min_len=0,
+                           max_len=1, barriers=False,
+                           avoid={'index_cover', 'dbcol_dbindex', 'dbindex_with_rebuild'})
+    spec = None
+    for _ in range(5):
+        spec = mutgen.ensure_uids(draw(S.project_specs(feats, apps=('pa',))))
+        if any(m['fields'] for _a, _n, m in S.iter_models(spec)):
+            break
+    models = [(a, n) for a, n, m in S.iter_models(spec) if m['fields']]
+    if not models:
+        return {'mode': 'walk', 'spec': spec, 'seq': [], 'rows': {}, 'links': {}, 'cuts': []}
+    app, name = draw(st.sampled_from(models))
+    fname = draw(st.sampled_from([f['name'] for f in S.get_model(spec, app, name)['fields']]))
+    seq, cur = [], copy.deepcopy(spec)
+    counter = [0]
+
+    def push(mut):
+        nonlocal cur
+        try:
+            nxt = R.apply(cur, mut, strict=True)
+        except (R.RefInvalid, KeyError, TypeError, AttributeError):
+            return False
+        seq.append(mut)
+        cur = nxt
+        return True
+
+    def one(cand, force_name=None):
+        if cand[3] is not None:
+            mm = S.get_model(cur, cand[1], cand[2])
+            ff = S.get_field(mm, cand[3]) if mm else None
+            if ff is None or (cand[0] == 'ChangeField' and ff['kind'] == 'ManyToMany'):
+                return False
+        if cand[0] == 'AddField' and force_name is not None:
+            mm = S.get_model(cur, cand[1], cand[2])
+            if mm is None or S.get_field(mm, force_name) is not None:
+                return False
+        counter[0] += 1
+        mut = draw(mutgen.draw_mutation(cur, cand, feats, opts, counter[0]))
+        if mut is None:
+            return False
+        if force_name is not None and mut['kind'] == 'AddField':
+            mut['field']['name'] = force_name
+            mut['field']['db_column'] = None
+        return push(mut)
+
+    def filler():
+        if draw(st.integers(0, 2)) == 0:
+            cands = [c for c in mutgen._candidates(cur, opts, feats) if c[1:3] == (app, name)]
+            if cands:
+                one(draw(st.sampled_from(cands)))
+    if draw(st.booleans()):
+        one(('ChangeField', app, name, fname))
+    filler()
+    if not one(('RenameField', app, name, fname)):
+        return {'mode': 'walk', 'spec': spec, 'seq': seq, 'rows': {}, 'links': {}, 'cuts': []}
+    filler()
+    one(('AddField', app, name, None), force_name=fname)
+    filler()
+    if draw(st.booleans()):
+        one(('ChangeField', app, name, fname))
+    rows, links = draw(EC.rows_for(spec, seq, 3))
+    n = len(seq)
+    cuts = sorted(set(draw(st.lists(st.integers(1, max(1, n - 1)), max_size=1))))
+    return {'mode': 'walk', 'spec': spec, 'seq': seq, 'rows': rows, 'links': links, 'cuts': cuts}
 
 
 def jobs(tier, scale=1.0):
@@ -206,6 +282,8 @@ def jobs(tier, scale=1.0):
     for i in range(4 if tier == 'quick' else 16):
         out.append({'kind': 'hyp', 'stratum': 'one_app' if i % 2 == 0 else 'two_apps',
                     'shard': i, 'examples': per})
+    for i in range(2 if tier == 'quick' else 4):
+        out.append({'kind': 'hyp', 'stratum': 'name_reuse', 'shard': 100 + i, 'examples': per})
     return out
 
 
